@@ -659,8 +659,7 @@ pub fn run(ctx: &Ctx) -> &'static str {
         short_strategy,
         |_| check_short,
     );
-    if ctx.tier == crate::rt::Tier::Thorough {
-        crate::props::e2e::run(ctx, crate::props::e2e::Phase::Uplink, 2);
-    }
+    // the real event loop (listener buffer, select! arms, timers): one scenario on every change, more in thorough
+    crate::props::e2e::run(ctx, crate::props::e2e::Phase::Uplink, ctx.tier.pick(1, 6));
     "exploration"
 }
